@@ -17,7 +17,7 @@ def scenarios(rng, tier, wd, stats):
         keep = lambda s: not any(("garbage%d" % i) in s["name"] or ("malsig%d" % i) in s["name"] for i in range(3, 10))
         np_ = [s for s in np_ if keep(s)]
         rp = [s for s in rp if keep(s) and "garbage2" not in s["name"] and "malsig2" not in s["name"]]
-    sc += np_ + rp + L.fam_duplicates("c05") + L.fam_kill("c05", rng, 8 if q else 120)
+    sc += np_ + rp + L.fam_duplicates("c05") + L.fam_abandon("c05") + L.fam_kill("c05", rng, 8 if q else 120)
     sc += L.fam_outage("c05", [1200] if q else [300, 1200, 2600, 4000])
     sc += L.tlc_scripts("c05", rng, wd, stats, 10 if q else 150)
     sc += L.fam_random("c05", rng, 10 if q else 250)
@@ -26,7 +26,8 @@ def scenarios(rng, tier, wd, stats):
 
 RULE = ("families: every reply class (accept, refuse, subscription error, other API error, 10 kinds of non-JSON / wrong-shape "
         "body, bad signature, 6 malformed signatures) on the notification path (1 and 2 towers) and on the retry path; "
-        "duplicate notifications of accepted / pending / invalid appointments; SIGKILL while pending, while a request is "
+        "duplicate notifications of accepted / pending / invalid appointments; abandontower of one tower while another holds "
+        "accepted / pending / invalid appointments (shared data or not), checked again after a restart; SIGKILL while pending, while a request is "
         "in flight, in the hook, and at random delays after a tower's answer, followed by a restart; outages; scripts made "
         "from TLC -simulate behaviours of MC_ClientGen (visible actions; towers hold every request so that answers come in "
         "the order and with the class the specification chose); seeded random fault sequences; regression scripts of the "
